@@ -47,6 +47,8 @@ def plan(prop):
             [(0, 1, True), (1, 1, True), (2, 1, True), (0, 2, True), (0, 3, True), (1, 2, True), (1, 1, False), (2, 1, False), (0, 2, False), (0, 3, False), (1, 2, False)]
         for k, n, closed in e2e:
             obs.append((core, lambda ctx, k=k, n=n, c=closed: co.ob_insertion_e2e(ctx, k, n, c)))
+        for k, closed in ([(0, True), (1, True)] if Q else [(0, True), (1, True), (1, False), (2, True)]):
+            obs.append((core, lambda ctx, k=k, c=closed: co.ob_insertion_e2e_both(ctx, k, c)))
         cap = [(0, 'single', True), (1, 'single', True), (0, 'shipment', True), (1, 'shipment', True)] if Q else \
             [(0, 'single', True), (1, 'single', True), (2, 'single', True), (0, 'shipment', True), (1, 'shipment', True),
              (1, 'single', False), (1, 'shipment', False)]
@@ -111,9 +113,11 @@ def plan(prop):
             obs.append((core, lambda ctx, la=la, lb=lb: io.ob_reducer(ctx, la, lb)))
     if prop == 'C10':
         import pragmatic_obligations as po
-        for template, dims in ((('pd', 1), ('mixed', 1), ('empty', 1), ('p-only', 1), ('pd', 2)) if Q else
-                               (('pd', 1), ('mixed', 1), ('empty', 1), ('p-only', 1), ('pd', 2), ('mixed', 2), ('pd', 3))):
-            obs.append(('vrp-pragmatic', lambda ctx, t=template, d=dims: po.ob_job_rules(ctx, t, d)))
+        for template, dims, places in ((('pd', 1, 1), ('mixed', 1, 1), ('empty', 1, 1), ('p-only', 1, 1), ('pd', 2, 1), ('mixed', 1, 2)) if Q else
+                                       (('pd', 1, 1), ('mixed', 1, 1), ('empty', 1, 1), ('p-only', 1, 1), ('pd', 2, 1), ('mixed', 2, 2), ('pd', 3, 1), ('pd', 1, 3))):
+            obs.append(('vrp-pragmatic', lambda ctx, t=template, d=dims, n=places: po.ob_job_rules(ctx, t, d, n)))
+        # totality beyond the inline load size (8 dimensions): the recorded known finding
+        obs.append(('vrp-pragmatic', lambda ctx: po.ob_job_rules(ctx, 'pd', 9)))
     if prop == 'C12':
         import pragmatic_obligations as po
         prag = 'vrp-pragmatic'
